@@ -775,7 +775,7 @@ def parse_if(
             index += 1
             continue
         elif current_symbol == 'END_IF':
-            index += 2
+            index += 1
             break
         elif current_symbol == 'ELSE':
             opcode = 'OP_IF_ELSE'
